@@ -74,6 +74,35 @@ class CCFGBuilder:
             return self.cond(s.ch[0], t, r, root)
         if s.kind == "UnaryOperator" and s.op == "!":
             return self.cond(s.ch[0], f, t, root)
+        # `c ? a : b` as a condition is `a` under c and `b` otherwise, and a
+        # comparison of such an expression with something distributes over
+        # its arms (so that a test written with ?: has the same atomic tests
+        # as its && / || spelling)
+        if s.kind == "ConditionalOperator" and len(s.ch) == 3:
+            ta = self.cond(s.ch[1], t, f, root)
+            fa = self.cond(s.ch[2], t, f, root)
+            return self.cond(s.ch[0], ta, fa, root)
+        if s.kind == "BinaryOperator" and s.op in (
+                "==", "!=", "<", "<=", ">", ">=") and len(s.ch) == 2:
+            for i in (0, 1):
+                a = strip(s.ch[i])
+                if a is not None and a.kind == "ConditionalOperator" \
+                        and len(a.ch) == 3:
+                    import copy as _copy
+                    arms = []
+                    for arm in (a.ch[1], a.ch[2]):
+                        b = _copy.copy(s)
+                        b.ch = list(s.ch)
+                        b.ch[i] = arm
+                        arms.append(self.cond(b, t, f, root))
+                    return self.cond(a.ch[0], arms[0], arms[1], root)
+            lv, rv = int_value(strip(s.ch[0])), int_value(strip(s.ch[1]))
+            if lv is not None and rv is not None:
+                truth = {"==": lv == rv, "!=": lv != rv, "<": lv < rv,
+                         "<=": lv <= rv, ">": lv > rv, ">=": lv >= rv}[s.op]
+                j = g.new("join", None, s.line or e.line)
+                g.edge(j, t if truth else f)
+                return j
         v = int_value(s)
         n = g.new("cond", s, s.line or e.line, info=root)
         if v is None or v != 0:
